@@ -141,7 +141,9 @@ def stop_self(started=None):
     if started:
         open(started, 'w').close()
     os.kill(os.getpid(), signal.SIGSTOP)
-    time.sleep(100000)
+    # (if somebody continues the process it goes on cooperatively)
+    while True:
+        time.sleep(0.005)
 
 
 def coop_loop(seconds=100000, started=None):
